@@ -2,15 +2,15 @@
 import re, struct
 from vplib.api import Case, ok, err, same_result
 from oracle import spell as S, f32, canon as CN
-from oracle.pdfwriter import Name, Ref
+from oracle.pdfwriter import Name, Ref, simple_file, minimal_catalog
 
 ID = "C04"
 LEVEL = "proof"
 DESIGN_REF = "DESIGN.md §9 C04, §12.C04"
 COQ_TARGETS = ["Properties/C04", "Pins/C04"]
-THEOREMS = [("PdfV.Properties.C04", n) for n in ["C04_ser_spells", "C04_roundtrip", "C04_roundtrip_eof", "C04_integer", "C04_decimal", "C04_name", "C04_string_literal", "C04_string_hex", "C04_ser_no_panic", "C04_nonvacuous"]]
-ANCHORS = ["primitive.rs", "lexer/", "parser/"]
-MODES = ["serialize", "ser_parse"]
+THEOREMS = [("PdfV.Properties.C04", n) for n in ["C04_ser_spells", "C04_roundtrip", "C04_roundtrip_eof", "C04_integer", "C04_decimal", "C04_name", "C04_string_literal", "C04_string_hex", "C04_indirect_body", "C04_ser_no_panic", "C04_nonvacuous"]]
+ANCHORS = ["primitive.rs", "lexer/", "parser/", "file.rs:write_revision"]
+MODES = ["serialize", "ser_parse", "save_value"]
 TRUSTED_BASE = ["coqc 8.16.1 kernel", "gen/extract_syn.py", "Extraction + ExtrOcamlBasic + driver", "pdfh harness",
                 "tools/oracle/f32.py (shortest round-trip decimal of a binary32), tools/oracle/canon.py (value equivalence)"]
 ASSUMPTIONS = ["Rust's `{}` on f32 prints the shortest decimal that reads back to the same value, in positional notation "
@@ -84,8 +84,16 @@ def norm(r):
     return ("OK", [REAL_RE.sub(sub, f) for f in r[1]])
 
 
+def strip_id(r):
+    """save_value: the object number the writer picks is not the model's business (the theorem holds for every id):
+       compare the value and the object text behind the number"""
+    if r is not None and r[0] == "OK" and len(r[1]) == 4 and r[1][3].startswith(r[1][1] + b" " + r[1][2] + b" obj"):
+        return ("OK", [r[1][0], r[1][2], r[1][3][len(r[1][1]):]])
+    return r
+
+
 def same(a, b):
-    return same_result(norm(a), norm(b))
+    return same_result(strip_id(norm(a)), strip_id(norm(b)))
 
 
 BOUNDARY_REALS = [0x4f000000, 0xcf000000, 0x4b800000, 0x4b7fffff, 0x4b800001, 0x00000001, 0x007fffff, 0x00800000, 0x33d6bf95,
@@ -151,8 +159,43 @@ def parsed_equiv(v):
     return chk
 
 
+_BASE = {}
+
+
+def base_file(fmt):
+    """a minimal document (objects 1..3) written by the independent writer; the next object number is 4"""
+    if fmt not in _BASE:
+        _BASE[fmt] = simple_file(minimal_catalog(), root=1, fmt=fmt)[0]
+    return _BASE[fmt]
+
+
+def saved_equiv(v):
+    want = CN.parse_canon(canon_impl2(v))
+    def chk(r):
+        if r[0] != "OK":
+            return "the object written by save cannot be read back: %s %s" % (r[0], r[1])
+        if not CN.equiv(want, CN.parse_canon(r[1][0])):
+            return "the object written by save reads back as a different value"
+        return None
+    return chk
+
+
+def save_case(v, rng, tag):
+    fmt = rng.choice(["table", "stream"])
+    return Case("save_value", [canon_impl2(v), base_file(fmt)], mfields=[canon_model(v), b"4", b"0"], check=saved_equiv(v),
+                tags=["ctx:saved-object", tag])
+
+
 def generate(rng, tier):
     n = 1500 if tier == "quick" else 60000
+    # placement "indirect-object body" through the real writer: Updater::create + Storage::save, re-load, resolve
+    for i in range(300 if tier == "quick" else 6000):
+        v = rand_value(rng, rng.choice([0, 0, 0, 1, 2, 3]))
+        yield save_case(v, rng, "saved:" + type(v).__name__)
+    for b in BOUNDARY_REALS:
+        yield save_case(BReal(b), rng, "saved:boundary-real")
+    for v in [None, True, False, 0, -1, 2147483647, -2147483648, Name("N"), Name(""), Ref(1, 0), Ref(3, 0), b"", b"(", [], {}]:
+        yield save_case(v, rng, "saved:scalar")
     for i in range(n):
         v = rand_value(rng, rng.choice([0, 0, 1, 2, 3, 4]))
         kind = type(v).__name__
